@@ -269,7 +269,16 @@ func (g *psGen) litStringText(b []byte) string {
 		case c == '\\':
 			sb.WriteString("\\\\")
 		case c == '\r':
-			sb.WriteString("\\r")
+			// a raw CR (or CR LF) inside a string is legal and reads as one
+			// newline; whether the pair is seen as one depends on look-ahead
+			switch t.Choose(3) {
+			case 0:
+				sb.WriteString("\\r")
+			case 1:
+				sb.WriteString("\r")
+			default:
+				sb.WriteString("\r\n")
+			}
 		case c == '\n':
 			if t.Bool(1, 2) {
 				sb.WriteString("\\n")
@@ -1089,7 +1098,7 @@ func (g *psGen) sep(required bool, atTop bool, sb *strings.Builder) {
 			case 1:
 				sb.WriteString("%%" + key + ": some value (1)")
 			case 2:
-				sb.WriteString("%%" + key + ":  first\n%%+ second part")
+				sb.WriteString("%%" + key + ":  first" + []string{"\n", "\r\n", "\r"}[t.Choose(3)] + "%%+ second part")
 			default:
 				sb.WriteString("%%" + key + " no-colon value")
 			}
